@@ -58,7 +58,7 @@ def check(run):
     facts, consulted = memo.first_only_facts(run, rx)
     for k, ok, site2, what in facts:
         run.ob("C20.R3", "%s:%s" % (rx.fq, k), ok, site2, what)
-    run.floor("C20.R3", 5)
+    run.floor("C20.R3", 4)
     # R4 cleanup pairing
     done = ix.func(MM, "Memoer._serviceOnceRxGrams")
     facts, deleted = memo.completion_facts(run, done)
